@@ -18,7 +18,12 @@ there is none) — for the record model all of them are "a write with id k into 
 Optional keyword arguments: an `open` op may end with a dict `{"mf": <file name|None>, "bl": <bool>, "nomode": 1, "str": 1}` =
 `manifest_file=` (a path inside the directory), `allow_baseless=`, mode argument omitted (default `r`), record path passed as `str`; `["commit", {"exts": {..}}]` =
 `commit_patch(manifest_exts=..)`; `["close", c]` = `close(commit=c)`, `["close", 1, "d"]` = `close()`, `["close", 1, "x"]` = `__exit__`
-(end of a `with` block). Model: `Model/RecordKw.lean` (driver lines `openk`, `commitk`).
+(end of a `with` block), `["close", 1, "xe"]` = `__exit__(type, value, traceback)` of an exception raised inside the `with` block (an
+`open` op is `with Record(...) as r:`, the ops up to the close are the body; record.py:652 ignores the arguments — for the model all
+three are `close 1`). Model: `Model/RecordKw.lean` (driver lines `openk`, `commitk`).
+Stub life cycle: `["stub", name, manifest]` = `IH5MFRecord.create_stub(dir/name, dir/manifest)` — a committed base container made
+from a manifest sidecar (manifest.py:262); the returned handle allows patching. Model: `Model/RecordStub.lean` (driver lines `stub`,
+`exit`; merge refused on stubs); histories that also open handles without their base run under the oracle only (`modelled`). `stubpatch` file lists = the real chain the manifest belongs to + the patches committed on the stub.
 Class keys: `p` IH5Record, `m` IH5MFRecord, `p+<n>` / `m+<n>` subclasses that add n bytes to the
 documented `ub_exts` section of the user block on commit (for the model: `p` / `m`).
 """
@@ -42,7 +47,9 @@ LEAN = dict(
         "frame", "writes_only_uncommitted_or_fresh", "committed_step", "committed_frozen", "committed_frozen_between",
         "sidecar_frozen", "snapshot_still_valid", "inv_run", "unsafe_w_can_modify",
         "kw_default", "frame_kw", "writes_only_uncommitted_or_fresh_kw", "committed_step_kw", "committed_frozen_kw",
-        "sidecar_frozen_kw", "snapshot_still_valid_kw", "inv_run_kw"]],
+        "sidecar_frozen_kw", "snapshot_still_valid_kw", "inv_run_kw",
+        "exit_is_close", "stub_default", "frame_stub", "writes_only_uncommitted_or_fresh_stub", "committed_step_stub",
+        "committed_frozen_stub", "sidecar_frozen_stub", "snapshot_still_valid_stub", "inv_run_stub"]],
     drivers=["drv_rec"],
 )
 
@@ -116,6 +123,15 @@ def _scalar(v):
         return repr(v)
 
 
+def _opaque(v):
+    """canonical text of a dataset that holds no integer (the `h5py.Empty` placeholders of a stub container)"""
+    try:
+        x = v[()]
+        return "empty" if type(x).__name__ == "Empty" else repr(x)
+    except Exception as e:  # noqa: BLE001
+        return "!" + exc_name(e)
+
+
 def dump(rec):
     """user-visible content of the record: root attributes, root children (the harness only writes at root
     level: datasets `w<k>`, groups `g<k>`) and their attributes; sorted by key"""
@@ -130,7 +146,7 @@ def dump(rec):
             try:
                 out.append([k, int(v[()])])
             except Exception:
-                out.append([k, repr(v)])
+                out.append([k, _opaque(v)])
         for a in v.attrs.keys():
             out.append([k + "@" + a, _scalar(v.attrs[a])])
     return sorted(out, key=lambda e: e[0])
@@ -341,6 +357,12 @@ def run_ops(ops, exempt_after_w=True, keep=None):
                         rec.close()
                     elif how == "x" and op[1]:
                         rec.__exit__(None, None, None)
+                    elif how == "xe" and op[1]:
+                        # the `with` block is left by an exception raised inside it
+                        try:
+                            raise RuntimeError("vt: raised inside the with block")
+                        except RuntimeError as e:
+                            rec.__exit__(type(e), e, e.__traceback__)
                     else:
                         rec.close(commit=bool(op[1]))
                 elif kind == "openperm":
@@ -362,6 +384,15 @@ def run_ops(ops, exempt_after_w=True, keep=None):
                     rec.close(commit=False)
                 elif kind == "merge":
                     rec.merge_files(Path(d) / op[1])
+                elif kind == "stub":
+                    if rec is not None and not rec._closed:
+                        out = "busy"
+                    else:
+                        last_cls, last_bl = "m", False
+                        try:
+                            rec = cls["m"].create_stub(Path(d) / op[1], Path(d) / op[2])
+                        except UnicodeDecodeError:  # (a container given as manifest; a ValueError)
+                            out = "ValueError"
                 elif kind == "delete":
                     destructive = op[1]
                     cls[last_cls].delete_files(Path(d) / op[1])
@@ -369,7 +400,7 @@ def run_ops(ops, exempt_after_w=True, keep=None):
                     raise RuntimeError("unknown op %r" % (op,))
             except BaseException as e:  # noqa: BLE001
                 out = exc_name(e)
-            if out not in ("ok", "busy") and kind in ("open", "openperm"):
+            if out not in ("ok", "busy") and kind in ("open", "openperm", "stub"):
                 # a constructor that raised after `_open` leaves a half-built record (and its h5py files)
                 # behind until it is collected; the traceback is gone only after the except block
                 gc.collect()
@@ -412,7 +443,7 @@ def run_ops(ops, exempt_after_w=True, keep=None):
                         committed[side] = after[side][0]
                         exempt.discard(side)
             # ---- commit events: the file set + dump at that moment
-            if out == "ok" and is_open and kind in ("commit",) and r.get("files"):
+            if out == "ok" and is_open and kind in ("commit", "stub") and r.get("files"):
                 commits.append((i, list(r["files"]), r["full"], last_cls, last_bl))
             if (out == "ok" and kind == "close" and op[1] and len(recs) >= 2 and recs[-2].get("files") and "rw=1" in recs[-2]["h"]
                     and after.get(recs[-2]["files"][-1], ("", "?"))[1] == "c"):
@@ -469,23 +500,56 @@ def out_lines(recs):
 def tags_of(ops, recs):
     tags = set()
     seen_commit = False
-    for op, r in zip(ops, recs):
+    since_open = []  # kinds of the successful calls since the latest constructor call (the body of the `with` block)
+    stubs = set()  # hex names of the stub base containers
+    for i, (op, r) in enumerate(zip(ops, recs)):
+        k = op[0]
+        prev_h = recs[i - 1]["h"] if i else "closed"
+        on_stub = prev_h.split(":")[0] in stubs
+        if k == "close" and len(op) > 2 and op[2] == "xe" and op[1]:
+            # where the exception left the block
+            if prev_h == "closed" or prev_h.startswith("!"):
+                st = "closed"
+            elif "rw=1" in prev_h:
+                st = "open-patch"
+            elif "allow=0" in prev_h:
+                st = "read-only"
+            else:
+                st = "after-" + next((x for x in reversed(since_open) if x in ("commit", "discard", "create", "merge", "stub")), "open")
+            tags.add("with-left-by-exception:%s:%s" % (st, r["out"] if r["out"] != "ok" else ("1-file" if "," not in prev_h else "n-files")))
         if r["out"] != "ok":
             tags.add("err:" + r["out"])
             if op[0] == "open" and op[3] == "l" and open_label(op):
                 tags.add("list-%s-%s-refused" % (open_label(op), op[2]))
             if op[0] == "open" and "mf" in open_kw(op):
                 tags.add("kw-manifest_file:%s:%s:%s-refused" % (open_kw(op).get("mfk", "?"), op[1][0], op[2]))
+            if k == "stub" and r["out"] != "busy":
+                where = "at-a-stub" if hx(op[1] + ".ih5") in stubs else ("at-a-record" if (op[1] + ".ih5") in r["after"] else "elsewhere")
+                tags.add("stub-refused:%s:%s" % (where, r["out"]))
+            if k == "merge" and on_stub:
+                tags.add("merge-on-stub-refused")
             continue
-        k = op[0]
+        if k in ("open", "openperm", "stub"):
+            since_open = []
+        else:
+            since_open.append(k)
         if k in ("commit",) or (k == "close" and op[1]):
             seen_commit = True
+            if on_stub and "rw=1" in prev_h:
+                tags.add("patch-on-stub-committed")
         if seen_commit and k in ("write", "create", "discard", "merge"):
             tags.add("%s-after-commit" % k)
         if k == "write" and len(op) > 2:
             tags.add("write-kind-" + op[2])
+        if k == "stub":
+            stubs.add(hx(op[1] + ".ih5"))
+            tags.add("stub-created:%s" % ("of-base" if ":0:" in r["h"] else "of-patch"))
+            if any(o[0] == "stub" and o[1] + ".ih5mf.json" == op[2] or o[0] == "stub" and op[2].startswith(o[1] + ".p") for o in ops[:i]):
+                tags.add("stub-of-a-stub")
         if k == "open":
             tags.add("open-%s-%s" % (op[2], op[3]))
+            if r["h"].split(":")[0] in stubs:
+                tags.add("stub-record-reopened-%s" % op[2])
             if op[3] == "l" and open_label(op):
                 tags.add("list-%s-%s" % (open_label(op), op[2]))
             kw = open_kw(op)
@@ -512,7 +576,7 @@ def tags_of(ops, recs):
         if k == "close" and not op[1]:
             tags.add("close-nocommit")
         if k == "close" and len(op) > 2:
-            tags.add("close-" + {"d": "default-argument", "x": "with-exit"}.get(op[2], op[2]))
+            tags.add("close-" + {"d": "default-argument", "x": "with-exit", "xe": "with-exit-by-exception"}.get(op[2], op[2]))
         if k == "commit" and commit_exts(op) is not None:
             tags.add("kw-manifest_exts:" + last_open_cls(ops, op))
     if len({op[1][0] for op in ops if op[0] == "open"}) > 1:
@@ -527,6 +591,8 @@ def last_open_cls(ops, op):
             break
         if o[0] in ("open", "openperm"):
             c = o[1][0]
+        if o[0] == "stub":
+            c = "m"
     return c
 
 
@@ -555,7 +621,11 @@ def op_line(op):
     if k in ("read", "create", "discard"):
         return k
     if k == "close":
+        if op[1] and len(op) > 2 and op[2] in ("x", "xe"):
+            return "exit %d" % (1 if op[2] == "xe" else 0)  # `__exit__` without / with an exception
         return "close %d" % (1 if op[1] else 0)
+    if k == "stub":
+        return "stub %s %s" % (hx(op[1]), hx(op[2]))
     if k == "merge":
         return "merge " + hx(op[1])
     if k == "delete":
@@ -594,6 +664,8 @@ def compare_lines(impl_out, model_out):
     if len(impl_out) != len(model_out):
         return "length %d vs %d" % (len(impl_out), len(model_out))
     for i, (a, b) in enumerate(zip(impl_out, model_out)):
+        if b.strip() == "outside":
+            return None  # create_stub from a manifest whose containers have left the directory: not modelled from here on
         m = parse_model(b)
         parts = [p.strip() for p in a.split(" | ")]
         r = dict(out=parts[0])
@@ -658,6 +730,15 @@ class Sim:
         self.baseless = False
         self.open, self.rw, self.allow = True, True, True
 
+    def stubbed(self, name, of, idx):
+        """`create_stub(name, <sidecar of the container with patch index idx of record `of`>)` succeeded"""
+        self.name = name
+        self.recs[name] = dict(files=[(name + ".ih5", idx)], unc=False, stub=(of, idx))
+        self.h = list(self.recs[name]["files"])
+        self.hfull = True
+        self.baseless = False
+        self.open, self.rw, self.allow = True, False, True
+
     def opened_by_name(self, mode, start=0):
         """`start` > 0: the files from position `start` on (a suffix, opened with allow_baseless=True)"""
         rec = self.recs[self.name]
@@ -709,7 +790,7 @@ class Sim:
         self.rw = False
 
     def merged(self, t):
-        if self.open and not self.rw and self.h and t not in self.recs and not self.baseless:
+        if self.open and not self.rw and self.h and t not in self.recs and not self.baseless and not self.recs.get(self.name, {}).get("stub"):
             self.recs[t] = dict(files=[(t + ".ih5", self.h[-1][1])], unc=False, src=self.name)
             return True
         return False
@@ -718,7 +799,7 @@ class Sim:
 LIST_KINDS = [("prefix", 5), ("full", 2), ("gap", 1), ("foreign", 1), ("graft", 1.5), ("tail", 0.7), ("missing", 0.5), ("empty", 0.2)]
 
 
-def gen_file_list(rng, s):
+def gen_file_list(rng, s, stubs=False):
     """An explicit list of container files for `IH5Record(list, mode)`: (label, file names, valid chain?, complete?).
 
     prefix  - a strict prefix of the record's file list (the state at an earlier commit)
@@ -728,16 +809,24 @@ def gen_file_list(rng, s):
     graft   - a merged container followed by the patches its source got afterwards
     tail    - a strict suffix (no base)
     missing - all files plus a name that does not exist
+    stubpatch - (`stubs` only) the containers a stub stands for + the patches committed on the stub ("patching in thin air")
     The list is shuffled half of the time (the argument order is irrelevant for the code)."""
     files = [f for f, _ in s.recs[s.name]["files"]]
-    tot = sum(w for _, w in LIST_KINDS)
+    kinds = LIST_KINDS + [("stubpatch", 3)] if stubs else LIST_KINDS
+    tot = sum(w for _, w in kinds)
     x = rng.random() * tot
-    for kind, w in LIST_KINDS:
+    for kind, w in kinds:
         x -= w
         if x <= 0:
             break
     valid, complete = False, False
-    if kind == "prefix" and len(files) >= 2:
+    patched_stubs = [n for n, r in s.recs.items() if r.get("stub") and len(r["files"]) > (2 if r["unc"] else 1) and r["stub"][0] in s.recs]
+    if kind == "stubpatch" and patched_stubs:
+        t = rng.choice(patched_stubs)
+        of, idx = s.recs[t]["stub"]
+        out = [f for f, i in s.recs[of]["files"] if i <= idx] + [f for f, _ in (s.recs[t]["files"][1:-1] if s.recs[t]["unc"] else s.recs[t]["files"][1:])]
+        valid = True
+    elif kind == "prefix" and len(files) >= 2:
         out = files[: rng.randrange(1, len(files))]
         valid = True
     elif kind == "gap" and len(files) >= 2:
@@ -823,19 +912,61 @@ def gen_open_kw(rng, s, mode, files=None, label=None, use_bl=True):
 KINDS = [("d", 0.5), ("a", 0.25), ("g", 0.1), ("n", 0.15)]
 
 
-def gen_history(rng, n_ops, with_others=True, allow_merge=True, p_list=0.22, kinds=False, ext=False, kw=0.0):
+def gen_history(rng, n_ops, with_others=True, allow_merge=True, p_list=0.22, kinds=False, ext=False, kw=0.0, stubs=0.0):
     """`kinds`: writes are datasets, groups, root attributes, attributes of a child (else datasets only);
     `ext`: the record classes are subclasses with extra user-block content;
     `kw`: share of the calls that carry optional keyword arguments (manifest_file=, allow_baseless=, mode omitted,
-    manifest_exts=, close() / __exit__ instead of close(commit=True))."""
-    ops = _gen_history(rng, n_ops, with_others, allow_merge, p_list, kinds, kw)
+    manifest_exts=, close() / __exit__ instead of close(commit=True));
+    `stubs`: chance of a `create_stub` call whenever no handle is open (stub life cycle: stubs from the newest / an older / another
+    record's manifest under a fresh name, the SAME name, the name of an existing stub; the records of the directory are then
+    reopened in turn, patches land on stubs, `stubpatch` file lists)."""
+    ops = _gen_history(rng, n_ops, with_others, allow_merge, p_list, kinds, kw, stubs)
     if ext:
         m = {k: "%s+%d" % (k, rng.choice(pad_classes(k)) if rng.random() < 0.5 else gen_pad_len(rng, k)) for k in "pm"}
         ops = [[o[0], m[o[1]]] + list(o[2:]) if o[0] == "open" and rng.random() < 0.85 else o for o in ops]
     return ops
 
 
-def _gen_history(rng, n_ops, with_others, allow_merge, p_list, kinds, kw=0.0):
+STUB_NAMES = ["st", "s2", "foo-st"]
+
+
+def gen_stub_op(rng, s):
+    """a `create_stub` call: manifest = sidecar of the newest / some committed container of the current record, of any record
+    of the directory (stubs and their patches included), an absent file, a container; target name = a fresh name, the name
+    of an existing stub (again at that location), the current record's own name, any record of the directory, an invalid name"""
+    cands = []  # (sidecar, record, patch index)
+    for n, r in s.recs.items():
+        fs = r["files"][:-1] if r["unc"] else r["files"]
+        cands += [(f + "mf.json", n, i) for f, i in fs]
+    own = [c for c in cands if c[1] == s.name]
+    x = rng.random()
+    if x < 0.5 and own:
+        mf = own[-1]
+    elif x < 0.7 and own:
+        mf = rng.choice(own)
+    elif x < 0.93 and cands:
+        mf = rng.choice(cands)
+    else:
+        mf = (rng.choice(["nope.ih5mf.json", (own or cands or [("foo.ih5mf.json",)])[-1][0][:-7]]), None, None)
+    have = [n for n, r in s.recs.items() if r.get("stub")]
+    fresh = [n for n in STUB_NAMES if n not in s.recs]
+    x = rng.random()
+    if x < 0.45 and fresh:
+        name = fresh[0]
+    elif x < 0.75 and have:
+        name = rng.choice(have)
+    elif x < 0.9:
+        name = s.name
+    elif x < 0.97:
+        name = rng.choice(sorted(s.recs))
+    else:
+        name = "b@d"
+    if name not in s.recs and mf[1] is not None and name != "b@d":
+        s.stubbed(name, mf[1], mf[2])
+    return ["stub", name, mf[0]]
+
+
+def _gen_history(rng, n_ops, with_others, allow_merge, p_list, kinds, kw=0.0, stubs=0.0):
     ops = []
     s = Sim()
     # a handle on patches without their base shows a child of the base that got an attribute in a patch as an (empty)
@@ -845,7 +976,7 @@ def _gen_history(rng, n_ops, with_others, allow_merge, p_list, kinds, kw=0.0):
         kinds = "no-n"
     if with_others and rng.random() < 0.7:
         names = rng.sample(OTHERS, rng.randrange(1, 4))
-        ops += setup_ops(rng, names)
+        ops += setup_ops(rng, names, cls_choice="m" if stubs > 0 and rng.random() < 0.8 else None)
         # what setup_ops leaves on disk (for explicit file lists that mix records)
         j = 0
         for n in names:
@@ -861,6 +992,8 @@ def _gen_history(rng, n_ops, with_others, allow_merge, p_list, kinds, kw=0.0):
     targets = ["bar", "foo3", "fo-o", "ba"]
     cur_cls = rng.choice("pm")
     fixed_cls = rng.random() < 0.6
+    if stubs > 0:  # (only IH5MFRecord writes the manifests stubs are made from)
+        cur_cls, fixed_cls = "m", rng.random() < 0.8
     n_ops += len(ops)
     while len(ops) < n_ops:
         r = rng.random()
@@ -876,9 +1009,15 @@ def _gen_history(rng, n_ops, with_others, allow_merge, p_list, kinds, kw=0.0):
             if r < 0.06 and merged:
                 # continue on a merged record
                 s.name = rng.choice(merged)
+            if stubs > 0:
+                if rng.random() < 0.3:
+                    s.name = rng.choice(sorted(s.recs))  # the records of the directory (stubs included) in turn
+                if rng.random() < stubs:
+                    ops.append(gen_stub_op(rng, s))
+                    continue
             if rng.random() < p_list:
                 # explicit file list: older snapshots, permutations, incoherent selections
-                label, fl, valid, complete = gen_file_list(rng, s)
+                label, fl, valid, complete = gen_file_list(rng, s, stubs > 0)
                 mode = rng.choice(["r", "r+", "a", "r+", "a", "r"] if rng.random() < 0.93 else ["x", "w-"])
                 ops.append(["open", c, mode, "l", fl, label])
                 okw = gen_open_kw(rng, s, mode, fl, label, use_bl) if kw > 0 and rng.random() < (kw if label != "tail" else min(1.0, 2.5 * kw)) else {}
@@ -897,7 +1036,7 @@ def _gen_history(rng, n_ops, with_others, allow_merge, p_list, kinds, kw=0.0):
                     s.h = sorted(((f, by[f]) for f in fl), key=lambda fi: fi[1])
                     s.hfull = False
                     s.open, s.allow, s.rw = True, False, False
-                elif label == "graft":
+                elif label in ("graft", "stubpatch"):
                     # a coherent chain under a new base name: the patch gets a fresh name (unless taken)
                     by = {f: i for r_ in s.recs.values() for f, i in r_["files"]}
                     s.h = sorted(((f, by[f]) for f in fl), key=lambda fi: fi[1])
@@ -968,7 +1107,9 @@ def _gen_history(rng, n_ops, with_others, allow_merge, p_list, kinds, kw=0.0):
         elif name in ("close1", "close0"):
             ops.append(["close", 1 if name == "close1" else 0])
             if name == "close1" and kw > 0 and rng.random() < kw:
-                ops[-1].append(rng.choice("dx"))
+                ops[-1].append(rng.choice(["d", "x", "xe"]))
+            elif name == "close1" and rng.random() < 0.2:
+                ops[-1].append("xe")  # the `with` block is left by an exception
             s.close(name == "close1")
             if rng.random() < 0.15:
                 # operations on a closed handle
@@ -1031,6 +1172,99 @@ def expand(seq, c):
     return ops
 
 
+WITH_BODY = ["write", "read", "create", "commit", "discard", "failed-write", "merge"]
+WITH_EXITS = ["xe", "x"]
+
+
+def expand_with(body, c, mode, how, nbase, by="n"):
+    """`with Record(foo, mode) as r: <body>` on a record of `nbase` committed containers, the block left by an exception raised
+    after the body (`how` = xe; every prefix of a body is a body: the exception at every position) or normally (x), then the
+    record is read again. `failed-write`: a write the record refuses when no patch is open (the refusal is the exception a
+    real block is left by). `by` = l: the record is named by its file list."""
+    ops = [["open", c, "x", "n", MAIN], ["write", 1]]
+    files = [MAIN + ".ih5"]
+    for i in range(1, nbase):
+        ops += [["commit"], ["create"], ["write", 1 + i]]
+        files.append("%s.p%d.ih5" % (MAIN, i))
+    ops.append(["close", 1])
+    ops.append(["open", c, mode, "n", MAIN] if by == "n" else ["open", c, mode, "l", files, "full"])
+    k = 10
+    nmerge = 0
+    for a in body:
+        if a in ("write", "failed-write"):
+            ops.append(["write", k]); k += 1
+        elif a == "merge":
+            ops.append(["merge", "bar%d" % nmerge]); nmerge += 1
+        else:
+            ops.append([a])
+    ops += [["close", 1, how], ["open", c, "r", "n", MAIN], ["read"], ["close", 1]]
+    return ops
+
+
+STUB_ALPHABET = ["stub", "stub-same", "stub-own", "stub-older", "patch", "reopen", "merge", "src-patch", "raise", "discard"]
+
+
+def expand_stub(seq, nbase=2):
+    """Stub life cycle after a committed IH5MFRecord `foo` of `nbase` containers (all in one directory):
+    stub      - close; create_stub("st", <sidecar of foo's newest container>) (the first time it creates the stub, later: again at that location)
+    stub-same - close; create_stub("foo", <the same sidecar>) (the SAME name as the record)
+    stub-own  - close; create_stub("st", <sidecar of the newest container of record st>) (a stub of the stub, at its own location)
+    stub-older- close; create_stub("st", <sidecar of foo's base container>)
+    patch     - create_patch, write, commit_patch on the open handle;  discard - discard_patch
+    reopen    - close; open record st by name for patching (r+);  raise - the `with` block is left by an exception, then reopen st r+
+    merge     - merge_files (refused on a handle with a stub);  src-patch - close; open foo r+, write, close (the source moves on)"""
+    ops = [["open", "m", "x", "n", MAIN], ["write", 1]]
+    src = [MAIN + ".ih5"]
+    for i in range(1, nbase):
+        ops += [["commit"], ["create"], ["write", 1 + i]]
+        src.append("%s.p%d.ih5" % (MAIN, i))
+    ops.append(["close", 1])
+    st = []  # files of record st (approximation, only to name manifests)
+    st_idx = 0
+    k = 10
+    nmerge = 0
+    for a in seq:
+        if a in ("stub", "stub-same", "stub-own", "stub-older"):
+            mf = {"stub": src[-1], "stub-same": src[-1], "stub-older": src[0], "stub-own": st[-1] if st else src[-1]}[a] + "mf.json"
+            ops += [["close", 1], ["stub", MAIN if a == "stub-same" else "st", mf]]
+            if a != "stub-same" and not st:
+                st = ["st.ih5"]
+                st_idx = 0 if a == "stub-older" else len(src) - 1
+                st_src = src[: st_idx + 1]  # the containers the stub stands for
+        elif a == "patch":
+            ops += [["create"], ["write", k], ["commit"]]; k += 1
+            if st:
+                st_idx += 1
+                st.append("st.p%d.ih5" % st_idx)
+        elif a in ("reopen", "raise"):
+            ops += [["close", 1] + (["xe"] if a == "raise" else []), ["open", "m", "r+", "n", "st"], ["write", k]]; k += 1
+            if st:
+                st_idx += 1
+                st.append("st.p%d.ih5" % st_idx)
+        elif a == "merge":
+            ops.append(["merge", "bar%d" % nmerge]); nmerge += 1
+        elif a == "src-patch":
+            ops += [["close", 1], ["open", "m", "r+", "n", MAIN], ["write", k], ["close", 1]]; k += 1
+            src.append("%s.p%d.ih5" % (MAIN, len(src)))
+        elif a == "discard":
+            ops.append(["discard"])
+    ops += [["close", 1], ["open", "m", "r", "n", "st"], ["read"], ["close", 1]]
+    if st and len(st) > 1:
+        # the patches made on the stub applied to the real containers
+        ops += [["open", "m", "r", "l", st_src + st[1:], "stubpatch"], ["read"], ["close", 1]]
+    return ops
+
+
+def has_stub(case):
+    return any(o[0] == "stub" for o in case["ops"])
+
+
+def modelled(case):
+    """histories the Lean model answers: all without stubs; with stubs those that open no handle without its base
+    (the manifest committed on such a handle describes the patches only, `Model/RecordStub.lean` reads the whole chain)"""
+    return not has_stub(case) or not any(o[0] == "open" and open_kw(o).get("bl") for o in case["ops"])
+
+
 def gen_cases(ctx):
     rng = ctx.rng
     cases = []
@@ -1039,12 +1273,29 @@ def gen_cases(ctx):
         # half of the histories use the optional keyword arguments of the API
         cases.append(dict(kind="hist", ops=gen_history(rng, rng.randrange(8, 26), kinds=rng.random() < 0.5, ext=rng.random() < 0.2,
                                                        kw=rng.choice([0.0, 0.0, 0.3, 0.6]))))
+    if not ctx.quick:
+        for _ in range(500):
+            cases.append(dict(kind="stubhist", ops=gen_history(rng, rng.randrange(10, 34), kinds=rng.random() < 0.5, with_others=rng.random() < 0.5,
+                                                               kw=rng.choice([0.0, 0.0, 0.3]), stubs=rng.choice([0.25, 0.4]))))
     kwspace = [seq for l in range(1, 4) for seq in itertools.product(ALPHABET + ALPHABET_KW, repeat=l) if set(seq) & set(ALPHABET_KW)]
     if ctx.quick:
         # a sample of the short-sequence space
         space = [seq for l in range(1, 4) for seq in itertools.product(ALPHABET, repeat=l)]
         for seq in rng.sample(space, 30) + rng.sample(kwspace, 20):
             cases.append(dict(kind="seq", ops=expand(seq, rng.choice("pm"))))
+        # `with` blocks left by an exception at a random position of a random body / normally
+        for _ in range(45):
+            body = [rng.choice(WITH_BODY[:5] if rng.random() < 0.7 else WITH_BODY) for _ in range(rng.randrange(0, 6))]
+            cases.append(dict(kind="with", ops=expand_with(body, rng.choice("pm"), rng.choice(["r+", "a", "r+", "a", "r"]),
+                                                           "xe" if rng.random() < 0.85 else "x", rng.choice([1, 2, 2, 3]), rng.choice("nnl"))))
+        # stub life cycles: structured walks and random histories with create_stub calls
+        for _ in range(30):
+            seq = [rng.choice(["stub", "stub-older"])] if rng.random() < 0.6 else []
+            seq += [rng.choice(STUB_ALPHABET) for _ in range(rng.randrange(1, 6))]
+            cases.append(dict(kind="stubseq", ops=expand_stub(seq, rng.choice([1, 2, 3]))))
+        for _ in range(40):
+            cases.append(dict(kind="stubhist", ops=gen_history(rng, rng.randrange(10, 30), kinds=rng.random() < 0.5, with_others=rng.random() < 0.5,
+                                                               kw=rng.choice([0.0, 0.0, 0.3]), stubs=rng.choice([0.25, 0.4]))))
     else:
         for l in range(0, 5):
             for seq in itertools.product(ALPHABET, repeat=l):
@@ -1054,6 +1305,23 @@ def gen_cases(ctx):
             for c in "pm":
                 cases.append(dict(kind="seq", ops=expand(seq, c)))
         ctx.exhaustive_spaces.append("all call sequences of length <= 4 over {create_patch, write, commit_patch, discard_patch, close+reopen(r), close+reopen(r+), close+reopen(file list without the newest container, r+), merge_files} after a committed base, both record classes")
+        for mode, lmax in (("r+", 4), ("a", 3), ("r", 2)):
+            for l in range(0, lmax + 1):
+                for body in itertools.product(WITH_BODY[:5], repeat=l):
+                    for c in "pm":
+                        cases.append(dict(kind="with", ops=expand_with(body, c, mode, "xe", 2)))
+        for l in range(0, 4):
+            for i, body in enumerate(itertools.product(WITH_BODY, repeat=l)):
+                for nbase in (1, 3):
+                    cases.append(dict(kind="with", ops=expand_with(body, "pm"[(i + nbase) % 2], "r+", "xe", nbase, by="nl"[(l + nbase) % 2])))
+        for l in range(0, 4):
+            for seq in itertools.product(STUB_ALPHABET, repeat=l):
+                cases.append(dict(kind="stubseq", ops=expand_stub(seq, 1 + l % 2)))
+        for _ in range(1500):
+            seq = [rng.choice(["stub", "stub-older"])] + [rng.choice(STUB_ALPHABET) for _ in range(rng.randrange(3, 6))]
+            cases.append(dict(kind="stubseq", ops=expand_stub(seq, rng.choice([1, 2, 3]))))
+        ctx.exhaustive_spaces.append("all `with Record(foo, mode)` blocks on a record of 2 containers with a body of <= 4 (mode r+; a: <= 3; r: <= 2) calls over {write, read, create_patch, commit_patch, discard_patch} left by an exception (= the exception at every position of every such body), both record classes; bodies of <= 3 calls over these and {refused write, merge_files} on records of 1 and 3 containers named by path / by file list (classes alternating)")
+        ctx.exhaustive_spaces.append("all stub life cycles of <= 3 steps over {create_stub(st) from the newest / the base manifest of foo, create_stub(foo) (same name), create_stub(st) from st's own newest manifest, patch committed on the open handle, close+reopen st (r+), with-block left by an exception + reopen, merge_files, a new patch of the source record, discard_patch}")
         ctx.exhaustive_spaces.append("all call sequences of length <= 3 over these and {close+reopen(r+, manifest_file=<sidecar of the newest container>), close+reopen(file list without the base, r+, allow_baseless=True), commit_patch(manifest_exts=..)} after a committed base, both record classes")
     return cases
 
@@ -1068,7 +1336,15 @@ def run(ctx):
                 "arguments with legal and illegal values, both classes, every mode, by name and by list: manifest_file= (sidecar of the newest / newest "
                 "committed / an older container, the byte-identical sidecar of a merged copy, absent file, a container, None), allow_baseless= "
                 "(True/False; True also on lists without the base container), mode omitted, commit_patch(manifest_exts=..), close() / __exit__; "
-                "(seq) short call sequences after a committed base. After every call every file is hashed. Non-trivial = tagged: "
+                "(seq) short call sequences after a committed base; (with) `with Record(..) as r:` blocks (modes r+/a/r, by name / by file "
+                "list, records of 1..3 containers) with bodies over write, read, create_patch, commit_patch, discard_patch, refused write, "
+                "merge_files, left by an exception raised at every position of the body (`__exit__` with the exception) or normally, then read "
+                "again — in all histories a share of the closes is such an exit; (stubseq / stubhist) stub life cycle: "
+                "IH5MFRecord.create_stub from the newest / an older / another record's / a stub's own manifest into the same directory under a "
+                "fresh name, the SAME name, the name of an existing stub (again at that location), an existing record's name, with an absent "
+                "manifest or a container as manifest; patches created / discarded / committed on stubs (also via close, __exit__, exception "
+                "exits), stub records reopened r/r+/a by name by both classes, merges on stubs (refused), the source record patched "
+                "meanwhile, file lists = real containers + the patches made on the stub. After every call every file is hashed. Non-trivial = tagged: "
                 "write/create/discard/merge after a commit, continuing an uncommitted container, merge, discard, close without commit, each kind of "
                 "explicit file list per mode (accepted / refused), each keyword argument per value class / record class / mode (accepted / refused), "
                 "IH5MFRecord, mixed classes, each error class.")
@@ -1079,7 +1355,39 @@ def run(ctx):
         "a write through h5py reaches the file at the latest when the container is closed (lazy flush: changed <= must+may)",
     ]
     cases = core.load_corpus(ID) + gen_cases(ctx)
-    ctx.correspond("record-model", MOD, cases, lines, "drv_rec", compare=compare, timeout=120)
+    ctx.correspond("record-model", MOD, [c for c in cases if modelled(c)], lines, "drv_rec", compare=compare, timeout=120)
+    oracle_only(ctx, "stub-life-cycle-oracle-only", [c for c in cases if not modelled(c)])
+
+
+def oracle_only(ctx, group, cases, timeout=120):
+    """Stub histories outside the Lean model (see `modelled`): real code under the hash monitor / snapshot oracle only;
+    their outcome classes are recorded as tags."""
+    from .. import pool
+    st = ctx.groups.setdefault(group, __import__("collections").Counter())
+    res = pool.run(MOD, "impl", cases, timeout=timeout)
+    for c, r in zip(cases, res):
+        st["cases"] += 1
+        st["steps"] += len(c["ops"])
+        if r is None:
+            raise lean.InfraError("no result from worker")
+        if "timeout" in r:
+            r2 = pool.run_one(MOD, "impl", c, timeout=3.0 * timeout)
+            if r2 is not None and "timeout" not in r2:
+                r = r2
+        if "timeout" in r:
+            st["timeouts"] += 1
+            ctx.oracle_hit(c, {"kind": "does-not-terminate", "limit_s": timeout}, group=group)
+            ctx.note_case(c, ["timeout"], len(c["ops"]))
+            continue
+        if "crash" in r:
+            if core.crash_in_real_code(r):
+                ctx.oracle_hit(c, {"kind": "unexpected-exception", "error": r["crash"][:300], "where": core.crash_site(r)}, group=group)
+                ctx.note_case(c, ["unexpected-exception"], len(c["ops"]))
+                continue
+            raise lean.InfraError("harness crashed on case %s: %s\n%s" % (core.canon(c)[:300], r["crash"], r.get("tb", "")))
+        for d in r["ok"].get("oracle", []) or []:
+            ctx.oracle_hit(c, d, group=group)
+        ctx.note_case(c, list(r["ok"].get("tags", []) or []), len(c["ops"]))
 
 
 def signature(case, detail):
@@ -1130,5 +1438,6 @@ def replay(ctx, rep):
         return 0
     r = pool.run_one(MOD, "impl", case, timeout=120)
     print("implementation:", core.canon(r)[:4000])
-    print("model:", lean.run_driver("drv_rec", [lines(case)]))
+    if modelled(case):
+        print("model:", lean.run_driver("drv_rec", [lines(case)]))
     return 1 if ("ok" in r and r["ok"]["oracle"]) else 0
